@@ -52,6 +52,7 @@ CONTROLS = {
          "op2->pt == op2->next->pt || preserve_collinear_ ||", "T.removal"),
     ],
     "C04": [
+        ('local minimum without a hot edge on its left keeps the owner it had', 'CPP/Clipper2Lib/src/clipper.engine.cpp', '      else\n      {\n        outrec->owner = nullptr;', '      else\n      {', 'OWNER.assigned'),
         ('tree builder caches the number of output records', 'CPP/Clipper2Lib/src/clipper.engine.cpp', '    for (size_t i = 0; i < outrec_list_.size(); ++i)\n    {\n      OutRec* outrec = outrec_list_[i];\n      if (!outrec || !outrec->pts) continue;\n      if (outrec->is_open)\n      {\n        Path64 path;', '    const size_t cnt = outrec_list_.size();\n    for (size_t i = 0; i < cnt; ++i)\n    {\n      OutRec* outrec = outrec_list_[i];\n      if (!outrec || !outrec->pts) continue;\n      if (outrec->is_open)\n      {\n        Path64 path;', 'LOOP.bound-live'),
         ("a clear inside vote is sent to the midpoint fallback", E, "    if (std::abs(outside_cnt) > 1) return (outside_cnt < 0);", "    if (outside_cnt > 1) return false;", "T.inside-vote"),
         ("MoveSplits overwrites the destination list", E, "    for (; orIter != fromOr->splits->end(); ++orIter)\n      toOr->splits->emplace_back(*orIter);", "    *toOr->splits = *fromOr->splits;", "SPLITS.append-only"),
@@ -102,6 +103,7 @@ CONTROLS = {
         ("closing vertex stripped for open end types too", O, "\tfor (Path64& p: paths_in)\n\t  StripDuplicates(p, is_joined);", "\tfor (Path64& p: paths_in)\n\t  StripDuplicates(p, true);", "GROUP.strip-closed"),
     ],
     "C08": [
+        ('between test of the second end point only accepts ascending sides', 'CPP/Clipper2Lib/src/clipper.rectclip.cpp', '      else if (IsHorizontal(p3, p4)) return ((p2.x > p3.x) == (p2.x < p4.x));', '      else if (IsHorizontal(p3, p4)) return ((p2.x > p3.x) && (p2.x < p4.x));', 'T.touching'),
         ('touching case of the third end point stores the fourth', 'CPP/Clipper2Lib/src/clipper.rectclip.cpp', '    if (res3 == 0)\n    {\n      ip = p3;', '    if (res3 == 0)\n    {\n      ip = p4;', 'POLY.intersect'),
         ("from Left, a vertex above the rectangle and right of it is classed Top", R, "      else if (path[i].x >= rect_.right) loc = Location::Right;\n      else if (path[i].y <= rect_.top) loc = Location::Top;\n      else if (path[i].y >= rect_.bottom) loc = Location::Bottom;\n      else loc = Location::Inside;\n      break;\n\n    case Location::Top:", "      else if (path[i].y <= rect_.top) loc = Location::Top;\n      else if (path[i].x >= rect_.right) loc = Location::Right;\n      else if (path[i].y >= rect_.bottom) loc = Location::Bottom;\n      else loc = Location::Inside;\n      break;\n\n    case Location::Top:", "T.next-location"),
         ("clockwise step counted with a signed remainder", R, "        case -3: result += 1; break;", "        case -3: break;", "T.side-algebra"),
@@ -111,6 +113,7 @@ CONTROLS = {
          "      for (OutPt2List &edge : edges_) edge.clear();\n    }\n    return result;", "LOOP"),
     ],
     "C09": [
+        ("a point's y is compared with the right side", 'CPP/Clipper2Lib/src/clipper.rectclip.cpp', '    else if (pt.y == rec.top && pt.x >= rec.left && pt.x <= rec.right)', '    else if (pt.y == rec.right && pt.x >= rec.left && pt.x <= rec.right)', 'T.location'),
         ('touching case of the second end point stores the first', 'CPP/Clipper2Lib/src/clipper.rectclip.cpp', '    else if (res2 == 0)\n    {\n      ip = p2;', '    else if (res2 == 0)\n    {\n      ip = p1;', 'POLY.intersect'),
         ("segment scan starts where the pre-scan stopped", R, "      if (prev == Location::Inside) loc = Location::Inside;\n      i = 1;", "      if (prev == Location::Inside) loc = Location::Inside;", "SCAN.start"),
         ("a point above the rectangle classified as below it", R, "    else if (pt.y < rec.top) loc = Location::Top;", "    else if (pt.y < rec.top) loc = Location::Bottom;", "T.location"),
@@ -182,6 +185,7 @@ CONTROLS = {
          "\treturn Point64(pt.x + norm.x * delta + (pt.z ? 1 : 0), pt.y + norm.y * delta, pt.z);", "ZERASE"),
     ],
     "C16": [
+        ('TrimCollinear(PathD) ignores the precision it was given', 'CPP/Clipper2Lib/include/clipper2/clipper.h', '    if (error_code) return PathD();\n    const double scale = std::pow(10, precision);\n    Path64 p = ScalePath<int64_t, double>(path, scale, error_code);', '    if (error_code) return PathD();\n    const double scale = std::pow(10, 2);\n    Path64 p = ScalePath<int64_t, double>(path, scale, error_code);', 'PRECISION.forwarded'),
         ("TrimCollinear(PathD) hands short paths back without the round trip", H + "clipper.h", "    if (error_code) return PathD();\n    const double scale = std::pow(10, precision);\n    Path64 p = ScalePath<int64_t, double>(path, scale, error_code);", "    if (error_code) return PathD();\n    if (path.size() < 3) return path;\n    const double scale = std::pow(10, precision);\n    Path64 p = ScalePath<int64_t, double>(path, scale, error_code);", "SCALE.wrapper"),
         ("delta not scaled in InflatePaths(PathsD)", H + "clipper.h", "    clip_offset.Execute(delta * scale, solution);\n    return ScalePaths<double, int64_t>(solution, 1 / scale, error_code);",
          "    clip_offset.Execute(delta, solution);\n    return ScalePaths<double, int64_t>(solution, 1 / scale, error_code);", "SCALE.wrapper"),
@@ -201,6 +205,7 @@ CONTROLS = {
          "  ClipperOffset clip_offset( miter_limit,\n    arc_tolerance, false, reverse_solution);", "  ClipperOffset clip_offset( miter_limit,\n    arc_tolerance, reverse_solution);", "FORWARD.param"),
     ],
     "C18": [
+        ('parallel segments detected with a tolerance', 'CPP/Clipper2Lib/include/clipper2/clipper.core.h', '    double det = dy1 * dx2 - dy2 * dx1;\n    if (det == 0.0) return false;', '    double det = dy1 * dx2 - dy2 * dx1;\n    if (std::fabs(det) < 1e-9) return false;', 'POLY.intersect'),
         ('second unrolled term of Area has the opposite orientation', 'CPP/Clipper2Lib/include/clipper2/clipper.core.h', '      a += static_cast<double>(it1->y + it2->y) * (it1->x - it2->x);', '      a += static_cast<double>(it1->y + it2->y) * (it2->x - it1->x);', 'POLY.area'),
         ('upper word adds the carry of the wrong intermediate', 'CPP/Clipper2Lib/include/clipper2/clipper.core.h', '    const uint64_t hibits = hi(a) * hi(b) + hi(x2) + hi(x3);', '    const uint64_t hibits = hi(a) * hi(b) + hi(x2) + hi(x1);', 'POLY.multiply'),
         ('Multiply fast path when only the first operand is small', 'CPP/Clipper2Lib/include/clipper2/clipper.core.h', '    const auto hi = [](uint64_t x) { return x >> 32; };\n', '    const auto hi = [](uint64_t x) { return x >> 32; };\n    if (hi(a) == 0) return { a * b, 0 };\n', 'P.multiply-no-wrap'),
@@ -214,6 +219,7 @@ CONTROLS = {
         ("partial sum can wrap", H + "clipper.core.h", "    const uint64_t x2 = hi(a) * lo(b) + hi(x1);", "    const uint64_t x2 = hi(a) * lo(b) + x1;", "P.multiply-no-wrap"),
     ],
     "C20": [
+        ('maxima of GetBounds(Paths) start at the smallest positive value', 'CPP/Clipper2Lib/include/clipper2/clipper.core.h', '    T xmax = std::numeric_limits<T>::lowest();\n    T ymax = std::numeric_limits<T>::lowest();\n    for (const Path<T>& path : paths)', '    T xmax = (std::numeric_limits<T>::min)();\n    T ymax = (std::numeric_limits<T>::min)();\n    for (const Path<T>& path : paths)', 'BOUNDS.minmax'),
         ('RDP gets the epsilon unsquared', 'CPP/Clipper2Lib/include/clipper2/clipper.h', '    RDP(path, 0, len - 1, Sqr(epsilon), flags);', '    RDP(path, 0, len - 1, epsilon, flags);', 'EPS.degree'),
         ('Ellipse turns dy with the already updated dx', 'CPP/Clipper2Lib/include/clipper2/clipper.h', '      double x = dx * co - dy * si;\n      dy = dy * co + dx * si;\n      dx = x;', '      dx = dx * co - dy * si;\n      dy = dy * co + dx * si;', 'POLY.utilities'),
         ('perpendicular distance divides by a mixed term', 'CPP/Clipper2Lib/include/clipper2/clipper.core.h', '    return Sqr(a * d - c * b) / (c * c + d * d);', '    return Sqr(a * d - c * b) / (c * c + d * c);', 'POLY.measure'),
